@@ -111,6 +111,96 @@ def gen_bigbig(rng, tier, cases):
                 else:
                     cases.append("f.%s %s %s" % (op, U(a), U(b)))
 
+# ---- big-big shape families (same families as tools/gen/c07.py) -----------------------------------
+STRUCT_PATS = ["Bn", "ones", "pow2", "pow2m1", "tz", "t1"]
+OTHER_PATS = ["hole", "sparse", "rand", "tzd"]
+SHORT_PATS = ["rand", "ones", "sparse", "small", "Bn", "t1"]
+
+def magnitude(rng, n, pat):
+    """a positive integer with exactly n digits (n >= 1) of the given shape"""
+    top = 64 * (n - 1)
+    if pat == "pow2":
+        return 1 << (top + rng.choice([0, 1, 31, 62, 63]))
+    if pat == "pow2m1":
+        return (1 << (top + rng.choice([1, 2, 32, 63, 64]))) - 1
+    if pat == "Bn":
+        return 1 << top                                   # 2^(64(n-1)): all lower digits zero
+    if pat == "ones":
+        return (1 << (64 * n)) - 1                        # 2^(64n) - 1
+    if pat == "tz":                                       # zero run through whole digits, random high part
+        z = rng.choice([top, top + rng.randrange(64), 64 * rng.randrange(n) + rng.randrange(64)])
+        hi_bits = 64 * n - z
+        return (rng.getrandbits(hi_bits) | 1 | (1 << (hi_bits - 1))) << z
+    if pat == "tzd":                                      # k low digits zero, the rest random digits
+        k = rng.randrange(n)
+        return val([0] * k + rand_digits(rng, n - k))
+    if pat == "t1":                                       # one run through whole digits
+        z = rng.choice([top, top + rng.randrange(64), 64 * rng.randrange(n) + rng.randrange(64)])
+        hi_bits = 64 * n - z
+        hi = (rng.getrandbits(hi_bits) | (1 << (hi_bits - 1))) & ~1
+        if hi == 0:
+            hi = 1 << (hi_bits - 1) if hi_bits > 1 else 0
+        v = (hi << z) | ((1 << z) - 1)
+        return v if v >> top else v | (1 << top)
+    if pat == "hole":
+        return ((1 << (64 * n)) - 1) ^ (1 << rng.randrange(64 * n - 1))
+    if pat == "sparse":
+        v = val(rand_digits(rng, n, "sparse"))
+        return v if v >> top else v | (1 << top)
+    if pat == "small":
+        return rng.choice([1, 2, 5, 255]) if n == 1 else (1 << top) + rng.choice([0, 1, 5])
+    return val(rand_digits(rng, n))
+
+def gen_bigbig_shapes(rng, tier, cases):
+    """Every big-big operator x the nine sign combinations x unequal (and equal) lengths 0..4, 8, the
+    longer operand structured (low zero digits, +-2^(64k), +-(2^(64k)-1), trailing zero / one runs
+    through whole digits, all-ones, sparse), in both operand orders: the by-value / by-reference /
+    assign variants take different code paths (e.g. bitor_pos_neg vs bitor_neg_pos) that only
+    differ on such shapes."""
+    lens = [0, 1, 2, 3, 4, 8]
+    k = 0
+    for fam in ("u", "i"):
+        signs = [(1, 1)] if fam == "u" else [(1, 1), (1, -1), (-1, 1), (-1, -1)]
+        for op in BIGBIG:
+            for la in lens:
+                for lb in lens:
+                    if la == 0 and lb == 0:
+                        continue
+                    pats = list(STRUCT_PATS)
+                    if tier == "quick":
+                        pats.append(OTHER_PATS[k % len(OTHER_PATS)])
+                    else:
+                        pats += OTHER_PATS
+                    for pat in pats:
+                        for (sa, sb) in signs:
+                            k += 1
+                            sp = SHORT_PATS[k % len(SHORT_PATS)]
+                            # the longer operand carries the structured shape (on a tie: the right one)
+                            if la > lb:
+                                a = magnitude(rng, la, pat)
+                                b = magnitude(rng, lb, sp) if lb else 0
+                            else:
+                                b = magnitude(rng, lb, pat)
+                                a = magnitude(rng, la, sp) if la else 0
+                            cases.append("f.%s %s %s" % (op, big_arg(fam, sa * a), big_arg(fam, sb * b)))
+    # zero against every shape (the remaining five of the nine sign combinations), and the documented
+    # witness shape: small positive | -(2^(64k))
+    for fam in ("u", "i"):
+        for op in BIGBIG:
+            for n in (1, 2, 3):
+                for pat in ("Bn", "ones", "tz"):
+                    m = magnitude(rng, n, pat)
+                    for v in ([m] if fam == "u" else [m, -m]):
+                        cases.append("f.%s %s %s" % (op, big_arg(fam, 0), big_arg(fam, v)))
+                        cases.append("f.%s %s %s" % (op, big_arg(fam, v), big_arg(fam, 0)))
+            cases.append("f.%s %s %s" % (op, big_arg(fam, 0), big_arg(fam, 0)))
+    for op in BIGBIG:
+        for kk in (1, 2, 4):
+            for small in (5, (1 << 64) - 1):
+                for (sa, sb) in ((1, -1), (-1, 1), (1, 1), (-1, -1)):
+                    cases.append("f.%s %s %s" % (op, I(sa * small), I(sb * (1 << (64 * kk)))))
+                    cases.append("f.%s %s %s" % (op, I(sa * (1 << (64 * kk))), I(sb * small)))
+
 def gen_shifts(rng, tier, cases):
     for fam in ("u", "i"):
         for ty in UT + IT:
@@ -172,6 +262,7 @@ def generate(rng, tier):
     cases = ["forms.list"]
     gen_scalar_arith(rng, tier, cases)
     gen_bigbig(rng, tier, cases)
+    gen_bigbig_shapes(rng, tier, cases)
     gen_shifts(rng, tier, cases)
     gen_pow(rng, tier, cases)
     gen_checked_folds(rng, tier, cases)
